@@ -178,6 +178,9 @@ def rhs_menu():
         "abs(r)": P.Call(V("<builtin>elementwise_abs"), (V("r"),)),
         "g+1": P.Sum((V("<p>g"), 1)), "g*1j": P.Product((V("<p>g"), 1j)), "u*1j": P.Product((V("u"), 1j)),
         "r*1j": P.Product((V("r"), 1j)),
+        # literal zeros / units next to complex or array operands (pymbolic.flatten is not purely structural)
+        "u*0": P.Product((V("u"), 0)), "0*r": P.Product((0, V("r"))), "u+0j": P.Sum((V("u"), 0j)),
+        "(1+0j)*u": P.Product((1 + 0j, V("u"))), "u**1": P.Power(V("u"), 1), "r/(1+0j)": P.Quotient(V("r"), 1 + 0j),
     }
 
 
@@ -227,9 +230,10 @@ def f_rhs(t, y):
     return Tagged(np.asarray(y) * 0.5 + t, "ytype")
 
 
-def build(items):
+def build(items, first="init"):
+    """first: name of the first-inserted phase ("zinit" makes the insertion order differ from the sorted one)"""
     from dagrt.language import CodeBuilder, DAGCode, ExecutionPhase
-    with CodeBuilder("init") as cb0:
+    with CodeBuilder(first) as cb0:
         cb0.assign("<p>g", 1)
     with CodeBuilder("main") as cb:
         for _, stmts in items:
@@ -238,9 +242,9 @@ def build(items):
                     cb.assign(lhs, rhs, loops=[tuple(l) for l in loops])
                 else:
                     cb.assign(lhs, rhs)
-    phases = {"init": ExecutionPhase("init", "main", list(cb0.statements)),
+    phases = {first: ExecutionPhase(first, "main", list(cb0.statements)),
               "main": ExecutionPhase("main", "main", list(cb.statements))}
-    return DAGCode(phases, "init")
+    return DAGCode(phases, first)
 
 
 class CheckingStore(dict):
@@ -250,12 +254,20 @@ class CheckingStore(dict):
         self.phase_getter = phase_getter
         self.bad = None
         self.loopvars = loopvars
+        self.unset_read = None
 
     def kind_of(self, name):
         from dagrt.utils import is_state_variable
         if is_state_variable(name):
             return self.table.global_table.get(name, "<missing>")
         return self.table.per_phase_table.get(self.phase_getter(), {}).get(name, "<missing>")
+
+    def __contains__(self, name):
+        r = super().__contains__(name)
+        if not r and not name.startswith(("<func>", "<builtin>")) and self.unset_read is None:
+            # the interpreter silently evaluates an unset variable to None: such a program is out of domain
+            self.unset_read = name
+        return r
 
     def __setitem__(self, name, v):
         if self.bad is None and not name.startswith("<state>") and name not in ("<t>", "<dt>"):
@@ -279,7 +291,8 @@ def assigned_kind_classes(items, name, tbl):
                 continue
             kim = KindInferenceMapper(tbl.global_table, tbl.per_phase_table.get("main", {}), registry(), check=False)
             try:
-                k = kim(rhs)
+                from pymbolic import flatten
+                k = kim(flatten(rhs))        # what the finder looks at (and what Assign stores)
                 out.add(type(k).__name__)
             except Exception:
                 out.add("?")
@@ -287,11 +300,21 @@ def assigned_kind_classes(items, name, tbl):
 
 
 def check_program(items):
+    """both phase namings: insertion order equal to / different from the alphabetical order"""
+    r, status, tstr = check_program_1(items, "init")
+    if r is None and status == "ok":
+        r2, status2, _ = check_program_1(items, "zinit")
+        if r2 is not None:
+            return r2, status2, tstr
+    return r, status, tstr
+
+
+def check_program_1(items, first):
     """returns (violation or None, status, table string)"""
     from dagrt.data import infer_kinds
     from dagrt.exec_numpy import NumpyInterpreter
     try:
-        dag = build(items)
+        dag = build(items, first)
     except Exception as ex:
         return None, "build-fails", None
     buf = io.StringIO()
@@ -307,7 +330,7 @@ def check_program(items):
                        sorted((p, sorted((k, kname(v)) for k, v in t.items()))
                               for p, t in tbl.per_phase_table.items())])
     it = NumpyInterpreter(dag, {"<func>f": f_rhs})
-    cur = {"phase": "init"}
+    cur = {"phase": first}
     store = CheckingStore(tbl, lambda: cur["phase"], set())
     it.context = store
     it.eval_mapper.context = store
@@ -334,6 +357,8 @@ def check_program(items):
     except Exception:
         if not store.bad:
             return None, "interpreter-fails", tstr
+    if store.unset_read is not None:
+        return None, "reads-unset-variable", tstr
     if store.bad:
         what, name, k, v = store.bad
         if what == "no-kind":
@@ -368,7 +393,7 @@ def programs(tier):
         yield from itertools.product(cm, repeat=5)
 
 
-CORE3 = ["u=1", "u=1j", "v=u+v", "v=u*v", "v=u/v", "w=u**v", "w=u+dt**2", "u=r[0]", "r=array", "r[i]=u", "w=i", "u=f(t,y)",
+CORE3 = ["u=u*0", "v=u+0j", "u=0*r", "u=1", "u=1j", "v=u+v", "v=u*v", "v=u/v", "w=u**v", "w=u+dt**2", "u=r[0]", "r=array", "r[i]=u", "w=i", "u=f(t,y)",
          "v=y+f", "<p>g=g*1j", "u=g+1", "w=u>v", "v=2.5", "w=norm(r)", "u=r*1j", "v=isnan(u)", "w=min", "w=max", "v=u*1j",
          "<p>g=u*v", "w=u+v"]
 CORE4 = ["u=1", "u=1j", "v=u+v", "w=u*v", "u=r[0]", "r=array", "r[i]=u", "<p>g=g*1j", "u=g+1", "v=u*1j", "w=u+v", "<p>g=u*v"]
